@@ -408,6 +408,10 @@ def exec (sub : SubRun) (g : G) (f : Frame) (ins : Instr) : StepR :=
   | .diceSetKL | .diceSetKH | .diceSetDL | .diceSetDH | .diceSetMin | .diceSetMax =>
     (match f.pop with
      | .ok (v, f') =>
+       let isMM := match ins with | .diceSetMin | .diceSetMax => true | _ => false
+       if isMM && (readInt v).isNone then
+         err g f' (match ins with | .diceSetMin => "骰子的 min 参数不为整数" | _ => "骰子的 max 参数不为整数")
+       else
        let i := (readInt v).getD 0
        let upd : DiceState → DiceState := match ins with
          | .diceSetKL => fun d => { d with keepLH := 1, low := i }
